@@ -320,7 +320,12 @@ CHECKS["C08"] = dict(
               "node (engine readyloop: every externalisation judged against what a restart would read from disk) + FAULT ENUMERATION on real node processes crossing the snapshot threshold",
     text="PROVED (kernel-checked, abstract in the state machine): Recover.recover_replays_all, rep_save, rep_snapshot, applied_is_image, acked_survives - what a node "
          "rebuilds from its newest snapshot and the WAL entries after it is the state after its committed prefix, under every storage operation of the Ready loop, so an "
-         "entry at or below the persisted commit index contributes to the recovered state exactly as when it was applied. HYPOTHESES checked on every run: F4 (order of "
+         "entry at or below the persisted commit index contributes to the recovered state exactly as when it was applied. PROVED on the LOOP MODEL (Cluster/ReadyLoop.lean: the "
+         "Ready arm statement by statement, an unsynced WAL tail of which any prefix survives a crash, replayWAL; its arm = the source's arm, ReadyLoop.C08Ready.arm_is_source_arm "
+         "re-proved on every run): every statement except wal.Save's write and the three externalising ones, crash + restart, and maybeTriggerSnapshot with a crash between any two "
+         "of its steps keep 'every crash image restarts and keeps every promise' (quiet_stmt_safe, crash_restart_safe, snapshot_never_loses); wal.Save torn after any record keeps every "
+         "promise raft has not taken back (save_keeps_promises, walWrite_safe); the arm with Send before wal.Save and the arm without the post-snapshot sync are refuted by "
+         "kernel-evaluated runs; NOT proved: the statement for the arm as it is over all conforming runs (registry, partial). HYPOTHESES checked on every run: F4 (order of "
          "the Ready arm extracted from raftexample/raft.go: saveSnap -> wal.Save -> ... -> transport.Send -> publishEntries -> Advance, write errors fatal, F4d: the "
          "wal.Save(rd.HardState, rd.Entries) step is not nested in any conditional) and its BEHAVIOURAL TIE, suite readyloop: one REAL raftexample.RaftNode (id 2 of {1,2,3}: "
          "real WAL + snapshot directory, real rafthttp transport, real serveChannels goroutine), the harness plays peers 1 and 3 through RaftNode.Process (elections, rival "
